@@ -19,12 +19,14 @@ Ev     == Traces[tid].ev[l]
 More   == l <= Len(Traces[tid].ev)
 Adv    == l' = l + 1 /\ tid' = tid
 Chk(name, got, want) ==
-  IF got = want THEN TRUE ELSE PrintT(<<"MISMATCH", tid, l, name, got, want>>) /\ FALSE
+  IF got = want THEN TRUE
+  ELSE PrintT("MISMATCH|" \o ToString(tid) \o "|" \o ToString(l) \o "|" \o name \o "|spec " \o ToString(got) \o " # logged " \o ToString(want)) /\ FALSE
 ChkB(name, ok, info) ==
-  IF ok THEN TRUE ELSE PrintT(<<"MISMATCH", tid, l, name, info>>) /\ FALSE
+  IF ok THEN TRUE
+  ELSE PrintT("MISMATCH|" \o ToString(tid) \o "|" \o ToString(l) \o "|" \o name \o "|" \o ToString(info)) /\ FALSE
 Track  == TLCSet(tid, l)
 Post   == \A t \in 1..NTr :
             IF TLCGet(t) = Len(Traces[t].ev) + 1 THEN TRUE
-            ELSE PrintT(<<"REJECT", t, TLCGet(t)>>)
+            ELSE PrintT("REJECT|" \o ToString(t) \o "|" \o ToString(TLCGet(t)))
 ASSUME \A t \in 1..NTr : TLCSet(t, 0)
 ============================================================================
